@@ -235,7 +235,10 @@ def rule_r1(repo: Repo, res: Result) -> None:
         root_arg = b.get(names[1]) if len(names) > 1 else None
         got = loc(root_arg) if root_arg is not None else None
         ok = got == ("param", "root_path")
-        res.add("C04.R1", f"{tag}::source root of the scan <- root_path", ok, "module names are computed relative to root_path" if ok else f"the scanner's source root is `{show_loc(got) if got is not None else '?'}`, not root_path: module names no longer start at the root directory", where(ctor.fi, ctor.node), kind="flow")
+        if not ok and _has_lost_parts(root_arg):
+            res.undecide("C04.R1", f"{tag}::source root of the scan <- root_path", f"cannot follow how the scanner's source root `{show(root_arg, 100)}` is computed", where(ctor.fi, ctor.node))
+        else:
+            res.add("C04.R1", f"{tag}::source root of the scan <- root_path", ok, "module names are computed relative to root_path" if ok else f"the scanner's source root is `{show_loc(got) if got is not None else '?'}`, not root_path: module names no longer start at the root directory", where(ctor.fi, ctor.node), kind="flow")
         filt = b.get(names[0]) if names else None
         pl = _param_leaves(filt, ge) if filt is not None else set()
         _options_obligation(res, f"{tag}::file filter <- exclusions / regex_exclusions", pl, {"exclusions", "regex_exclusions"}, "the scan filter", ctor, filt)
@@ -243,7 +246,10 @@ def rule_r1(repo: Repo, res: Result) -> None:
         if len(start) == 1:
             got = loc(start[0].arg(0)) if start[0].arg(0) is not None else None
             ok = got == ("param", "module_path")
-            res.add("C04.R1", f"{tag}::scan start <- module_path", ok, "the scan starts at module_path" if ok else f"the scan starts at `{show_loc(got) if got is not None else '?'}`, not at module_path", where(start[0].fi, start[0].node), kind="flow")
+            if not ok and _has_lost_parts(start[0].arg(0)):
+                res.undecide("C04.R1", f"{tag}::scan start <- module_path", f"cannot follow how the start of the scan `{show(start[0].arg(0), 100)}` is computed", where(start[0].fi, start[0].node))
+            else:
+                res.add("C04.R1", f"{tag}::scan start <- module_path", ok, "the scan starts at module_path" if ok else f"the scan starts at `{show_loc(got) if got is not None else '?'}`, not at module_path", where(start[0].fi, start[0].node), kind="flow")
         else:
             res.undecide("C04.R1", f"{tag}::scan start", f"{len(start)} `parse` call(s) on the scanner", where(ge, ge.node))
     ext = single("ExternalImportFilter", "external import filter")
@@ -266,8 +272,18 @@ def rule_r1(repo: Repo, res: Result) -> None:
 
 
 def _has_lost_parts(t: Term | None) -> bool:
-    """The value contains parts the executor could not follow (loop-carried values, results of unknown calls)."""
-    return t is not None and any(x[0] in ("unk", "loopvar") for x in subterms(t))
+    """The value contains parts the executor could not follow: loop-carried values, results of calls it did not enter, fields of
+    objects whose construction it did not see. A *negative* statement about such a value ("is not computed from ...") is unfounded."""
+    if t is None:
+        return False
+    for x in subterms(t):
+        if x[0] in ("unk", "loopvar"):
+            return True
+        if x[0] == "attr" and x[1][0] in ("new", "call", "mcall", "elem") and x[2].startswith("_"):
+            return True  # a private field of an object built elsewhere
+        if x[0] in ("call", "mcall") and (x[1][0] == "fn" if x[0] == "call" else False):
+            return True  # a repository function that was not entered
+    return False
 
 
 def _options_obligation(res: Result, key: str, got: set[str], want: set[str], what: str, e: Event, value: Term | None = None) -> None:
@@ -394,6 +410,9 @@ def rule_r3(repo: Repo, res: Result) -> None:
         root = base_loc[1] if base_loc[0] == "PARENT" else base_loc  # `p.relative_to(root.parent)` starts with the root's name as well
         root = strip_abs(root)
         ok = root == ("param", root_param) if info.ctor_heap else root[0] == "attr" and root[1] == ("param", info.parse.param_names[0])
+        if not ok and _has_lost_parts(root):
+            res.undecide("C04.R3", key + " [relative to the source root]", f"cannot follow where `{show_loc(base_loc)}` comes from", wh)
+            continue
         res.add("C04.R3", key + " [relative to the source root]", ok, "names are computed from the path relative to the scanner's source root" if ok else f"module names are computed relative to `{show_loc(base_loc)}`, not to the source root handed to the scanner", wh, kind="structural")
         alts = alternatives(el)
         want = canon([("parts", ("NOSUF", rel))] if base_loc[0] == "PARENT" else [("item", ("attr", root, "name")), ("parts", ("NOSUF", rel))])
@@ -1263,7 +1282,7 @@ def rule_r5(repo: Repo, res: Result) -> None:
             res.add("C04.R5", ikey, True, "the set of internal modules handed to the import conversion is computed from the scanned module names", where(e.fi, e.node), kind="flow")
         elif from_files:
             res.add("C04.R5", ikey, False, "the internal-module set of the import conversion is computed from the parsed *files* only: package directories are missing, so imports of packages (`from pkg import sub_package`, names relative to module_path's parent) do not resolve", where(e.fi, e.node), kind="flow")
-        elif from_scan:
+        elif from_scan or _has_lost_parts(internal) or internal is not None and internal[0] == "box" and internal[3][0] in ("unk", "loopvar"):
             res.undecide("C04.R5", ikey, f"cannot tell which part of the scan result `{show(internal, 80)}` is", where(e.fi, e.node))
         else:
             res.add("C04.R5", ikey, False, f"the internal-module set of the import conversion is `{show(internal, 80) if internal is not None else '?'}`: not computed from the scanned modules, so no prefixed name can ever be recognised", where(e.fi, e.node), kind="flow")
